@@ -3,6 +3,7 @@ package rules
 import (
 	"fmt"
 	"go/ast"
+	"go/constant"
 	"go/token"
 	"go/types"
 	"golang.org/x/tools/go/packages"
@@ -182,6 +183,24 @@ func decideSite(p *core.Program, info *types.Info, fd *ast.FuncDecl, fobj *types
 	}
 	if arr, ok := bt.Underlying().(*types.Array); ok {
 		fixed = arr.Len()
+	}
+	// a base of constant length indexed by an expression whose type and operators bound it: table[b>>4],
+	// table[b&0x0f], table[b%n] with b unsigned
+	if len(obs) == 1 && obs[0].le == nil && obs[0].strictHi {
+		length := fixed
+		if tv, ok := info.Types[base]; ok && tv.Value != nil && tv.Value.Kind() == constant.String {
+			length = int64(len(constant.StringVal(tv.Value)))
+		}
+		if o := astx.ObjOf(info, astx.Unparen(base)); o != nil && length < 0 {
+			if cst, isConst := o.(*types.Const); isConst && cst.Val().Kind() == constant.String {
+				length = int64(len(constant.StringVal(cst.Val())))
+			}
+		}
+		if length >= 0 {
+			if max, ok := staticUnsignedMax(info, obs[0].x); ok && max < length {
+				return "ok", fmt.Sprintf("index is at most %d by its type and operators, length is %d", max, length)
+			}
+		}
 	}
 	// variables of the index expressions
 	vars := map[types.Object]*idxVarInfo{}
@@ -756,4 +775,76 @@ func isLenArith(info *types.Info, e ast.Expr) bool {
 		return astx.IsBuiltin(info, x, "len") && len(x.Args) == 1
 	}
 	return false
+}
+
+// staticUnsignedMax bounds a non-negative integer expression from its type and operators alone:
+// constants, values of unsigned 8/16-bit types, x>>k, x&m, x%m over such values, and value-preserving
+// conversions of them.
+func staticUnsignedMax(info *types.Info, e ast.Expr) (int64, bool) {
+	e = astx.Unparen(e)
+	if tv, ok := info.Types[e]; ok && tv.Value != nil && tv.Value.Kind() == constant.Int {
+		v, exact := constant.Int64Val(tv.Value)
+		return v, exact && v >= 0
+	}
+	typeMax := func(t types.Type) (int64, bool) {
+		if b, ok := t.Underlying().(*types.Basic); ok {
+			switch b.Kind() {
+			case types.Uint8:
+				return 255, true
+			case types.Uint16:
+				return 65535, true
+			}
+		}
+		return 0, false
+	}
+	switch x := e.(type) {
+	case *ast.CallExpr:
+		// a conversion to an integer type at least as wide keeps the value
+		if tv, ok := info.Types[x.Fun]; ok && tv.IsType() && len(x.Args) == 1 {
+			if b, ok := tv.Type.Underlying().(*types.Basic); ok && b.Info()&types.IsInteger != 0 {
+				inner, ok := staticUnsignedMax(info, x.Args[0])
+				if !ok {
+					return 0, false
+				}
+				if m, small := typeMax(tv.Type); small && inner > m {
+					return 0, false
+				}
+				return inner, true
+			}
+		}
+	case *ast.BinaryExpr:
+		switch x.Op {
+		case token.SHR:
+			l, ok := staticUnsignedMax(info, x.X)
+			k, ok2 := astx.ConstInt(info, x.Y)
+			if ok && ok2 && k >= 0 && k < 63 {
+				return l >> uint(k), true
+			}
+		case token.AND:
+			if m, ok := astx.ConstInt(info, x.Y); ok && m >= 0 {
+				return m, true
+			}
+			if m, ok := astx.ConstInt(info, x.X); ok && m >= 0 {
+				return m, true
+			}
+			l, ok := staticUnsignedMax(info, x.X)
+			r, ok2 := staticUnsignedMax(info, x.Y)
+			if ok && ok2 {
+				if l < r {
+					return l, true
+				}
+				return r, true
+			}
+		case token.REM:
+			if m, ok := astx.ConstInt(info, x.Y); ok && m > 0 {
+				if _, nonneg := staticUnsignedMax(info, x.X); nonneg {
+					return m - 1, true
+				}
+			}
+		}
+	}
+	if t := info.TypeOf(e); t != nil {
+		return typeMax(t)
+	}
+	return 0, false
 }
